@@ -15,5 +15,6 @@ if not ok:
     print(out[-3000:]); sys.exit(1)
 vlib.build_driver()
 vlib.build_harness(release=True)
+vlib.build_stack_probe()
 print('setup done')
 PY
